@@ -6,6 +6,7 @@ import (
 	"encoding/hex"
 	"encoding/json"
 	"fmt"
+	"math"
 	"net/url"
 	"regexp"
 	"runtime/debug"
@@ -283,6 +284,9 @@ func populate(rng *simrt.Rng, md protoreflect.MessageDescriptor, msg protoreflec
 			}
 			m := msg.Mutable(fd).Map()
 			n := 1 + rng.Intn(2)
+			if bigValues && rng.Bool(0.5) && fd.MapKey().Kind() != protoreflect.BoolKind {
+				n = bigCount(60 + rng.Intn(100))
+			}
 			for j := 0; j < n; j++ {
 				var k protoreflect.MapKey
 				switch fd.MapKey().Kind() {
@@ -313,6 +317,13 @@ func populate(rng *simrt.Rng, md protoreflect.MessageDescriptor, msg protoreflec
 			}
 			l := msg.Mutable(fd).List()
 			n := 1 + rng.Intn(2)
+			if bigValues && rng.Bool(0.5) {
+				if fd.Kind() == protoreflect.MessageKind {
+					n = bigCount(20 + rng.Intn(30))
+				} else {
+					n = bigCount(150 + rng.Intn(350))
+				}
+			}
 			for j := 0; j < n; j++ {
 				if fd.Kind() == protoreflect.MessageKind || fd.Kind() == protoreflect.GroupKind {
 					v := l.NewElement()
@@ -335,6 +346,40 @@ func populate(rng *simrt.Rng, md protoreflect.MessageDescriptor, msg protoreflec
 
 var words = []string{"a", "bb", "foo", "bar-1", "Zed", "x y", "ünï", "0"}
 
+// bigValues: the value being populated is one of the rare LARGE ones (1 in 48): strings and bytes of
+// several kilobytes up to 80 KB, lists of hundreds of scalars or dozens of messages, integers at the
+// ends of their ranges - sizes at which buffers grow, chunks split and fast paths give way.
+var bigValues bool
+
+// bigBudget bounds one large value: list/map elements and string bytes still to be handed out
+// (nested lists of messages with large members would otherwise multiply into gigabytes).
+var bigElems, bigBytes int
+
+func bigCount(n int) int {
+	if n > bigElems {
+		n = bigElems
+	}
+	if n < 2 {
+		return 2
+	}
+	bigElems -= n
+	return n
+}
+
+func bigString(rng *simrt.Rng) string {
+	n := []int{4097, 8192, 20000, 65536, 80001}[rng.Intn(5)]
+	if n > bigBytes {
+		return words[rng.Intn(len(words))]
+	}
+	bigBytes -= n
+	var sb strings.Builder
+	for sb.Len() < n {
+		sb.WriteString(words[rng.Intn(len(words))])
+		sb.WriteByte(' ')
+	}
+	return sb.String()[:n-1] + "!"
+}
+
 func scalarValue(rng *simrt.Rng, fd protoreflect.FieldDescriptor) protoreflect.Value {
 	switch fd.Kind() {
 	case protoreflect.BoolKind:
@@ -343,20 +388,38 @@ func scalarValue(rng *simrt.Rng, fd protoreflect.FieldDescriptor) protoreflect.V
 		vals := fd.Enum().Values()
 		return protoreflect.ValueOfEnum(vals.Get(rng.Intn(vals.Len())).Number())
 	case protoreflect.Int32Kind, protoreflect.Sint32Kind, protoreflect.Sfixed32Kind:
+		if bigValues && rng.Bool(0.5) {
+			return protoreflect.ValueOfInt32([]int32{math.MaxInt32, math.MinInt32, math.MaxInt32 - 1}[rng.Intn(3)])
+		}
 		return protoreflect.ValueOfInt32(int32(rng.Intn(2000) - 1000))
 	case protoreflect.Int64Kind, protoreflect.Sint64Kind, protoreflect.Sfixed64Kind:
+		if bigValues && rng.Bool(0.5) {
+			return protoreflect.ValueOfInt64([]int64{math.MaxInt64, math.MinInt64, 1 << 53, -(1 << 53) - 1}[rng.Intn(4)])
+		}
 		return protoreflect.ValueOfInt64(int64(rng.Intn(2000000) - 1000000))
 	case protoreflect.Uint32Kind, protoreflect.Fixed32Kind:
+		if bigValues && rng.Bool(0.5) {
+			return protoreflect.ValueOfUint32(math.MaxUint32)
+		}
 		return protoreflect.ValueOfUint32(uint32(rng.Intn(5000)))
 	case protoreflect.Uint64Kind, protoreflect.Fixed64Kind:
+		if bigValues && rng.Bool(0.5) {
+			return protoreflect.ValueOfUint64([]uint64{math.MaxUint64, 1<<63 + 1, 1 << 53}[rng.Intn(3)])
+		}
 		return protoreflect.ValueOfUint64(uint64(rng.Intn(5000000)))
 	case protoreflect.FloatKind:
 		return protoreflect.ValueOfFloat32(float32(rng.Intn(1000)) / 8)
 	case protoreflect.DoubleKind:
 		return protoreflect.ValueOfFloat64(float64(rng.Intn(100000)) / 16)
 	case protoreflect.StringKind:
+		if bigValues && rng.Bool(0.3) {
+			return protoreflect.ValueOfString(bigString(rng))
+		}
 		return protoreflect.ValueOfString(words[rng.Intn(len(words))])
 	case protoreflect.BytesKind:
+		if bigValues && rng.Bool(0.4) {
+			return protoreflect.ValueOfBytes([]byte(bigString(rng)))
+		}
 		return protoreflect.ValueOfBytes([]byte(words[rng.Intn(len(words))]))
 	}
 	panic("unhandled kind " + fd.Kind().String())
@@ -370,6 +433,9 @@ func newPopulated(ti *TypeInfo, seed uint64) protoreflect.Message {
 	m := ti.Type.New()
 	rng := simrt.NewRng(seed)
 	anyChain = 0
+	bigValues = (seed>>24)%48 == 7
+	bigElems, bigBytes = 1200, 400_000
+	defer func() { bigValues = false }()
 	if fd := ti.Desc.Fields().ByName("pbany"); fd != nil && fd.Message() != nil && fd.Message().FullName() == "google.protobuf.Any" && seed%4 == 0 {
 		anyChain = 2 + int(seed>>8)%3 // 2..4 levels
 		populate(rng, fd.Message(), m.Mutable(fd).Message(), 1)
